@@ -57,6 +57,7 @@ type FuncContract struct {
 	Pure       bool
 	Concurrent bool
 	Trusted    bool // external assumption (spec file)
+	TaggedOnly bool // `taggedonly`: only obligations carrying an explicit property tag count (run-time safety of the function is not claimed)
 	AllCallers bool // `allcallers`: every module function that calls it is verified for its preconditions
 	AutoCallerOf string // synthesized: the function is verified only because it calls the `allcallers` function named here
 	Captures   []*Clause // `captures e`: facts about captured variables, proved where the closure is created, assumed at its entry
@@ -233,7 +234,7 @@ func (cs *ContractSet) forFunc(fn *ssa.Function) *FuncContract {
 
 var clauseKW = map[string]bool{"func": true, "type": true, "pure": true, "uf": true, "lemma": true, "ghost": true, "requires": true, "ensures": true,
 	"modifies": true, "decreases": true, "loop": true, "iterates": true, "concurrent": true, "props": true, "terminates": true,
-	"noinline": true, "callbackinv": true, "assert": true, "assume": true, "axiom": true, "assumelocked": true, "ghostentry": true, "callback": true, "arith": true, "nonnil": true, "volatile": true, "deferred": true, "guards": true, "invariant": true, "latch": true, "params": true, "results": true, "trusted": true, "purefn": true, "allcallers": true, "captures": true}
+	"noinline": true, "callbackinv": true, "assert": true, "assume": true, "axiom": true, "assumelocked": true, "ghostentry": true, "callback": true, "arith": true, "nonnil": true, "volatile": true, "deferred": true, "guards": true, "invariant": true, "latch": true, "params": true, "results": true, "trusted": true, "purefn": true, "allcallers": true, "captures": true, "taggedonly": true}
 
 var tagRe = regexp.MustCompile(`^(\w+)\[([A-Z0-9, ]+)\]`)
 
@@ -572,6 +573,10 @@ func (cs *ContractSet) LoadContractFile(path string, pkgKey string) error {
 		case "allcallers":
 			if curF != nil {
 				curF.AllCallers = true
+			}
+		case "taggedonly":
+			if curF != nil {
+				curF.TaggedOnly = true
 			}
 		case "captures":
 			if curF == nil {
